@@ -27,7 +27,11 @@ b=json.load(open('/root/.vp/BASELINE.json'))
 sp=[s for s in b['stable_pass'] if any(s.startswith(c+'::') for c in crates)]
 res={}
 for m in re.finditer(r'^test (\S+)(?: - should panic)? \.\.\. (ok|FAILED|ignored)',log,re.M): res[m.group(1)]=m.group(2)
-bad=[s for s in sp if res.get(re.sub(r'^bin/[^:]+::','',s.split('::',1)[1]))!='ok']
+def ok(s):
+    name=re.sub(r'^bin/[^:]+::','',s.split('::',1)[1])
+    alt=name.split('::',1)[1] if '::' in name else name   # integration-test binaries: <binary>::<test>
+    return res.get(name)=='ok' or res.get(alt)=='ok'
+bad=[s for s in sp if not ok(s)]
 print('suite-ok' if not bad and sp else 'suite-BROKEN:'+','.join(bad[:3]))
 PY
 )
